@@ -74,11 +74,11 @@ HARNESSES += [
               'Dtool_ExtractArg-by-keyword decision and the emitted text, run once with overload A at the lower address and once '
               'with B there; write_function_instance / write_orig_prototype are recording stand-ins, get_type_sort an uninterpreted table',
          domain='2 overloads; parameter names of 5 letters: a shared symbolic prefix, first difference w/s at a concrete position, symbolic '
-                'independent letters behind it (quick: names differ at the first letter, static function, overload A more specific; thorough: '
+                'independent letters behind it (quick: the CONCRETE names width / scale, static function, overload A more specific - a differential run of one scenario; thorough: '
                 'equal names and every position of the first difference, _has_this 0 / 1, both specificity orders; all concrete loops); both address orders (the set is built node by node in the shape std::set gives two keys in address order)',
          oracle='token streams of the two runs identical (vs_same_output), recorded (overload, args_type, arity) call sequences identical, '
                 'and args_type handed on is AT_single_arg exactly when the two names are equal',
-         bounds=dict(quick=dict(defs=dict(HAS_THIS=0, VLO=0, VHI=0, DIRHI=0), unwind=24, unwindset={'ll_memcmp.0': 12, 'll_strlen.0': 64, 'll_memcpy.0': 12, 'll_ctlz.0': 66, 'vs_same_output.0': 130, '_ZSt16__ostream_insertIcSt11char_traitsIcEERSt13basic_ostreamIT_T0_ES6_PKS3_l.0': 64}, cap=400),
+         bounds=dict(quick=dict(defs=dict(HAS_THIS=0, VLO=0, VHI=0, DIRHI=0, CONCRETE_NAMES=1), unwind=24, unwindset={'ll_memcmp.0': 12, 'll_strlen.0': 64, 'll_memcpy.0': 12, 'll_ctlz.0': 66, 'vs_same_output.0': 130, '_ZSt16__ostream_insertIcSt11char_traitsIcEERSt13basic_ostreamIT_T0_ES6_PKS3_l.0': 64}, cap=400),
                      # thorough: names equal / first difference at every position, static function and method, both specificity orders
                      thorough=dict(defs=dict(VLO=0, VHI=5, DIRHI=1), unwind=24, unwindset={'ll_memcmp.0': 12, 'll_strlen.0': 64, 'll_memcpy.0': 12, 'll_ctlz.0': 66, 'vs_same_output.0': 130, '_ZSt16__ostream_insertIcSt11char_traitsIcEERSt13basic_ostreamIT_T0_ES6_PKS3_l.0': 64}, cap=3000))),
 ]
